@@ -374,6 +374,26 @@ class Case(object):
             st.assume(g)
         return st, pre
 
+    def frame_guard(self, st_pre, results):
+        """nothing outside the modelled state Sigma may be written by an operation: a pre-existing heap object that is not one
+        of the known roles, or a function attribute, that differs afterwards is state the contracts know nothing about (it would
+        keep its decoration-time value in every symbolic pre-state) -> the operation is outside what is translated"""
+        mem0 = st_pre.get(self.cache_ref)
+        roles = {r.oid for r in (self.cache_ref, self.stats_ref, self.queue_ref, self.counter_ref, mem0.attrs.get('__archive__'),
+                                 mem0.attrs.get('__swap__')) if isinstance(r, Ref)}
+        roles |= {r.oid for r in getattr(self, 'hidden_refs', ())}
+        for (s, _) in results:
+            for oid, obj in st_pre.heap.items():
+                if oid in roles:
+                    continue
+                if s.heap.get(oid) is not obj:
+                    raise Unsupported('the operation writes to an object outside the modelled state (%s #%d created before the call): hidden state'
+                                      % (getattr(obj, 'kind', '?'), oid))
+            if s.fattrs != st_pre.fattrs:
+                changed = [k for k in set(s.fattrs) | set(st_pre.fattrs) if s.fattrs.get(k) is not st_pre.fattrs.get(k)]
+                raise Unsupported('the operation assigns function attributes %r: hidden state' % ([n for (_, n) in changed][:3],))
+        return results
+
     def sentinel_term(self):
         return self.I.ref_const(self.sentinel_ref) if self.sentinel_ref is not None else None
 
@@ -461,7 +481,7 @@ class Case(object):
         I.cur_func = '%s.wrapper' % self.qual
         I.fn_pre = pre
         I.obligations = []
-        results = I.call(st, self.wrapper, CallArgs([], {}, Opaque(a0), Opaque(k0)))
+        results = self.frame_guard(st, I.call(st, self.wrapper, CallArgs([], {}, Opaque(a0), Opaque(k0))))
         obs = []
         fn = '%s.wrapper' % self.qual
         key, kd, kexcs = self.key_terms(a0, k0)
@@ -720,7 +740,7 @@ def obligations_key_lookup(case, which):
         return [(s2, Opaque(fresh('unknown_result', Val)))]
     I.unmodelled_hook = unknown_callee
     try:
-        results = I.call(st, f, CallArgs([], {}, Opaque(a0), Opaque(k0)))
+        results = case.frame_guard(st, I.call(st, f, CallArgs([], {}, Opaque(a0), Opaque(k0))))
     finally:
         I.unmodelled_hook = None
     for (s, res) in results:
@@ -769,7 +789,7 @@ def obligations_info(case):
     case.extra['info'] = {'pre': pre}
     I.cur_func = fn
     I.fn_pre = pre
-    for (s, res) in I.call(st, f, CallArgs()):
+    for (s, res) in case.frame_guard(st, I.call(st, f, CallArgs())):
         post = Snap(case, s)
         path = '/'.join(s.labels) or 'straight'
         ob = _mk_ob(obs, fn, s, path, case, 'info')
@@ -821,7 +841,7 @@ def obligations_clear(case):
             ca = CallArgs([], {'keepstats': BoolV(keep)})
             keepv = keep
         case.extra['clear:' + mode] = {'pre': pre, 'keep': keep, 'mode': mode}
-        for (s, res) in I.call(st, f, ca):
+        for (s, res) in case.frame_guard(st, I.call(st, f, ca)):
             post = Snap(case, s)
             path = mode + '/' + '/'.join(s.labels)
             ob = _mk_ob(obs, fn, s, path, case, 'clear:' + mode)
@@ -876,7 +896,7 @@ def obligations_archive(case):
             other.attrs = {'__archive__': n_ref, '__swap__': st.alloc(ArchiveObj.symbolic('OS', role='otherswap'))}
             arg = st.alloc(other)
             st.assume(*other.facts())
-        for (s, res) in I.call(st, f, CallArgs([arg])):
+        for (s, res) in case.frame_guard(st, I.call(st, f, CallArgs([arg]))):
             post = Snap(case, s)
             path = mode + '/' + '/'.join(s.labels)
             ob = _mk_ob(obs, fn, s, path, case, 'archive')
